@@ -935,7 +935,10 @@ def run_three(tpl, case):
             g[1].touch()
         o["rc1"] = p1.wait(timeout=T)
         o["after_l1"] = {"done": ex("done"), "failed": ex("failed"), "lockfile": lockpath.exists()}
-        o["l2_body"] = _until(lambda: "b1" in _blog(jd, 2), 30)
+        _until(lambda: "b1" in _blog(jd, 2) or p2.poll() is not None, T)
+        o["l2_body"] = "b1" in _blog(jd, 2)
+        if not o["l2_body"] and p2.poll() is None:
+            raise RuntimeError("L2 neither reached its body point nor ended")   # slow machine: no verdict from this case
         p3 = _spawn_hand(tpl, jd, 3, "ok", ("b1", g[3]))
         procs.append(p3)
         if not _until(lambda: any(e["ev"] == "lock-wait" for e in _read_log(jd / "efflog-3")), T):
